@@ -26,7 +26,7 @@ var Check = &vrt.Check{
 	ID:    "C10",
 	Level: "exploration",
 	Rule: "a case is a batch of operation histories over {AddOut, Prepare, SetSent, SetDeferred, ProcessInbound (one and two messages), SetUnread(true/false), restart} " +
-		"x 3 MIDs, for 3 casts of (recipient set, P2P-only) per MID covering all 8 combinations, in normal and send-only mode; all histories up to length 3 (thorough: 4) that respect " +
+		"x 3 MIDs, for 4 casts of (recipient set incl. Cc-only and To+Cc, P2P-only) per MID, in normal and send-only mode; all histories up to length 3 (thorough: 4) that respect " +
 		"the documented preconditions are enumerated, plus PRNG histories of length 10-60 with per-operation message variants; after the last operation of every exhaustive history " +
 		"(all prefixes are themselves enumerated) and after every operation of a PRNG history ALL observables are compared with the model. A history is non-trivial when at least one stored " +
 		"message was compared with the model (listing or GetOutbound result), i.e. the mailbox was not empty all along; distinct = distinct (mode, cast, operation sequence)",
@@ -46,7 +46,7 @@ var Check = &vrt.Check{
 		if tier == "thorough" {
 			l = 4
 		}
-		return map[string]any{"exhaustive_subspaces": []string{fmt.Sprintf("all precondition-respecting histories of length <= %d over the 21-operation alphabet, 3 casts, 2 modes", l)}}
+		return map[string]any{"exhaustive_subspaces": []string{fmt.Sprintf("all precondition-respecting histories of length <= %d over the 21-operation alphabet, 4 casts, 2 modes", l)}}
 	},
 }
 
@@ -66,16 +66,22 @@ type variant struct {
 	P2P  bool
 }
 
-var rcptSets = map[string][]string{"A": {addrA}, "B": {addrB}, "AB": {addrA, addrB}, "S": {addrSMTP}}
+var rcptSets = map[string][]string{"A": {addrA}, "B": {addrB}, "AB": {addrA, addrB}, "S": {addrSMTP}, "AcB": {addrA}, "AcS": {addrA}, "cA": {}}
+
+// carbon-copy recipients: a recipient is a recipient whether it is in To or in Cc (the sole-recipient
+// rule of the P2P filter counts both).
+var ccSets = map[string][]string{"AcB": {addrB}, "AcS": {addrSMTP}, "cA": {addrA}}
 
 // model-side normal form of the recipients (what Address.String() yields, upper-cased Winlink
 // callsigns, SMTP: prefix for internet addresses) - written out by hand, not computed by the library.
-var rcptNorm = map[string][]string{"A": {"N0AAA"}, "B": {"N0BBB"}, "AB": {"N0AAA", "N0BBB"}, "S": {"SMTP:user@example.com"}}
+var rcptNorm = map[string][]string{"A": {"N0AAA"}, "B": {"N0BBB"}, "AB": {"N0AAA", "N0BBB"}, "S": {"SMTP:user@example.com"},
+	"AcB": {"N0AAA", "N0BBB"}, "AcS": {"N0AAA", "SMTP:user@example.com"}, "cA": {"N0AAA"}}
 
 var casts = [][3]variant{
 	{{"A", false}, {"B", true}, {"AB", false}},
 	{{"S", false}, {"A", true}, {"B", false}},
 	{{"AB", true}, {"S", true}, {"A", false}},
+	{{"AcB", false}, {"cA", false}, {"AcS", true}},
 }
 
 var fwLists = [][]string{{}, {addrA}, {addrA, addrB}}
@@ -152,7 +158,7 @@ func alphabet(cast [3]variant) []op {
 }
 
 func outSpec(o op) mboxkit.MsgSpec {
-	return mboxkit.MsgSpec{MID: mids[o.M], From: "N0SRC", To: rcptSets[o.V.Rcpt], P2POnly: o.V.P2P, BodyLen: o.L, FileLen: o.F, Tag: "out" + o.T}
+	return mboxkit.MsgSpec{MID: mids[o.M], From: "N0SRC", To: rcptSets[o.V.Rcpt], Cc: ccSets[o.V.Rcpt], P2POnly: o.V.P2P, BodyLen: o.L, FileLen: o.F, Tag: "out" + o.T}
 }
 
 func inSpec(m int, o op) mboxkit.MsgSpec {
